@@ -409,7 +409,20 @@ func (w *vkWorld) runOnce(cs vkCase) vkResult {
 	}
 
 	// follow-up: another name of the same zone, asked of the same pipeline instance (= the same shared
-	// state) by a client that is not cancelled and has its own fresh budget
+	// state) by a client that is not cancelled and has its own fresh budget.
+	// Precondition, not oracle: a client query that ended early (cancelled, over budget, deadline) can leave
+	// a "slow" server still holding back its delayed answer; authsim serves one datagram at a time per
+	// server, so a follow-up sent right away would queue behind it and see that server answer after
+	// 2 x 150 ms = not within the 300 ms exchange timeout, i.e. not the "healthy but slow" server this
+	// case is about. Let the scripted delays drain first.
+	if local || cs.Mode == "cancel" || cs.Mode == "budget" || cs.Mode == "deadline" {
+		for _, b := range cs.Beh {
+			if b == "slow" {
+				time.Sleep(2*vkSlow + 50*time.Millisecond)
+				break
+			}
+		}
+	}
 	f := w.ask(pl, "b."+zone, h_rpipe.AskOpt{})
 	res.Follow = &f
 	res.F2 = pl.Failures()
